@@ -713,6 +713,13 @@ def probe_frames(w):
         out.append(w.data_frame(False, 40001 + len(out), 80, 7, b'GET ' + tgt + b' HTTP/1.1\r\nHost: \xff\r\n\r\n'))
     for b in (b'SSH-2.0-\xff\r\n', b'SSH-2.0-x\r\r\n', b'SSH-2.0-x\n', b'SSH-1.99-\x00\r\n'):
         out.append(w.data_frame(False, 41001 + len(out), 22, 7, b))
+    # SMB1 negotiate requests whose dialect names (kept as text by the responder) have every length up to 70 and end in / consist of
+    # octets that are not ASCII
+    for L in list(range(1, 71)) + [127, 128, 255, 256]:
+        for name in (b'A' * (L - 1) + b'\xe9', b'\xe9' * L):
+            blob = b'\x02' + name + b'\x00' + b'\x02NT LM 0.12\x00'
+            p = b'\xffSMB\x72' + bytes(4) + b'\x18' + bytes(2) + bytes(2) + bytes(8) + bytes(2) + bytes(8) + b'\x00' + struct.pack('<H', len(blob)) + blob
+            out.append(w.udp_frame(False, 40000, 445, bytes([0, 0, len(p) >> 8, len(p) & 255]) + p))
     for a in (b'\x00\x03\xff\xff', b'\x00\x01\x00\x08\x00\x03', b'\x80\x22\x00\x05abc'):
         out.append(w.udp_frame(False, 40000, 3478, b'\x00\x01' + struct.pack('>H', len(a)) + b'\x21\x12\xa4\x42' + bytes(12) + a))
     return out
